@@ -45,7 +45,7 @@ def concrete_verdicts(rules, text_bytes):
 
 
 def run_instance(name, repo, timeout_s):
-    prefix, kmax, suffix, what, _tiers, _mode = INSTANCES[name]
+    prefix, kmax, suffix, what, _tiers, mode = INSTANCES[name]
     rules, order = load_rules(repo)
     t0 = time.time()
     queries = 0
@@ -88,8 +88,8 @@ def run_instance(name, repo, timeout_s):
         def as_term(c):
             return z3.BoolVal(c) if isinstance(c, bool) else c
 
-        # 1. the languages agree
-        diff = z3.Xor(as_term(a_impl), as_term(a_ref))
+        # 1. the languages agree (mode "progress": only the termination question is asked, for C12)
+        diff = z3.Xor(as_term(a_impl), as_term(a_ref)) if mode == "lang" else z3.BoolVal(False)
         r, w = check(diff, "agree")
         if r == "unknown":
             res.update(verdict="inconclusive", reason="z3 gave no answer for k=%d within %ds" % (k, timeout_s))
@@ -124,10 +124,14 @@ def run_instance(name, repo, timeout_s):
             both_reject = both_reject or r == "sat"
         stats.append({"k": k, "peg_nodes": peg.nodes})
     if res["verdict"] == "pass":
-        oracle_ok = ["P:c11.accepted_text_is_in_the_grammar", "P:c11.text_of_the_grammar_is_accepted",
-                     "P:c12.every_repetition_consumes_input"]
+        oracle_ok = ["P:c12.every_repetition_consumes_input"]
+        if mode == "lang":
+            oracle_ok += ["P:c11.accepted_text_is_in_the_grammar", "P:c11.text_of_the_grammar_is_accepted"]
         covers = [{"desc": "some text of this shape is accepted by both", "status": "SATISFIED" if both_accept else "UNSATISFIABLE"},
                   {"desc": "some text of this shape is rejected by both", "status": "SATISFIED" if both_reject else "UNSATISFIABLE"}]
+        if mode != "lang":
+            # the termination question does not need an accepted text (none is that short for the free shape)
+            covers = covers[1:]
         unsat = [c["desc"] for c in covers if c["status"] != "SATISFIED"]
         if unsat:
             res.update(verdict="inconclusive", reason="vacuous: cover not satisfied: %s" % unsat)
